@@ -88,6 +88,7 @@ func (e *Eng) obligations() {
 	e.ndstream()
 	e.ndstreamChunks()
 	e.automaton()
+	e.codec()
 
 	// ---- C16: who reads Message
 	e.messageReaders()
